@@ -174,6 +174,9 @@ def check_session(ex, cfg, status, ret, agg):
         agg.note('no C assert / abort / NULL dereference reachable when files of an earlier session exist', False, path_model(ex)); return
     agg.note('no C assert / abort / NULL dereference reachable when files of an earlier session exist', True)
     files, problems = build_files(ex)
+    agg.note('only files this writer created and closed are renamed to a final name or removed (a stale tmp. file of a killed recorder is never published)',
+             not problems, None if not problems else dict(problems=[p_[:2] for p_ in problems], model=path_model(ex)))
+    if problems: return
     calls = ex.user['calls']
     data_files = [f for f in files if not f['is_props']]
     E = envstubs.env(ex)
